@@ -28,7 +28,7 @@
 (***************************************************************************)
 EXTENDS PropsWorld
 
-CONSTANTS KeyBytes(_),       \* registry-key bytes of an asset identifier (denom bytes / canonical address bytes)
+CONSTANTS KeyBytes(_),       \* registry-key bytes of an asset info (denom bytes / canonical address bytes)
           AddrOfIndex(_),    \* address given to the n-th instantiated contract
           LEGACY             \* defects of the original code to re-introduce (normally {}):
                              \*   "R1" cw20 swap hook does not tie the named asset to the sending token
@@ -246,7 +246,7 @@ BytesLe(a, b) == LexLe(a, b, 1)
 
 \* state.rs:pair_key -- the two identifiers sorted by bytes, concatenated without a delimiter
 PairKey(x, y) ==
-    LET bx == KeyBytes(x.id)  by == KeyBytes(y.id) IN
+    LET bx == KeyBytes(x)  by == KeyBytes(y) IN
     IF BytesLe(bx, by) THEN bx \o by ELSE by \o bx
 
 KeyTaken(w, k) == \E i \in DOMAIN w.fac.reg : w.fac.reg[i].key = k
